@@ -66,7 +66,7 @@ OUTCOMES = ["ok", "ok", "ok", "ok", "rc1", "rc2", "sig", "nofile", "fail_with_fi
 def budget(tier):
     if tier == "quick":
         return {"runs": 6000, "chunk": 20, "wall_cap": 500.0, "det_sample": 6}
-    return {"runs": 100000, "chunk": 25, "wall_cap": 3300.0, "det_sample": 30}
+    return {"runs": 600000, "chunk": 50, "wall_cap": 3300.0, "det_sample": 30}
 
 
 def pre_checks(tier):
